@@ -144,7 +144,7 @@ theorem CW.close_end (c : CW) (hi : DataInv c) (he : c.err = none) (hne : c.leaf
             (by rw [t5, ← hi.dsize.1]; have := hi.dsize.2; unfold maxSize at this; omega)
             hform.1 (by omega) ?_
           · obtain ⟨chs, hc1, hc2⟩ := hasm
-            refine ⟨CW.nwEnd c isz, [], List.replicate k 0 ++ IDX, chs, ?_, hc2, ?_, rfl, by rw [hcfs]; exact hlen⟩
+            refine ⟨CW.nwEnd c isz, [], List.replicate k 0 ++ IDX, chs, ?_, hc2, ?_, rfl, by rw [hcfs]; exact hlen, rfl⟩
             · rw [hc1, t5, hi.dsize.1]
             · rw [hstream, hfile]; simp [List.append_assoc]
           · -- the root is found at the end of the file
@@ -358,7 +358,7 @@ theorem CW.close_start (c : CW) (hi : DataInv c) (he : c.err = none) (hne : c.le
                   (by rw [t5, ← hi.dsize.1]; have := hi.dsize.2; unfold maxSize at this; omega)
                   hform.1 (by omega) ?_
                 · obtain ⟨chs, hc1, hc2⟩ := hasm
-                  refine ⟨CW.nwStart c isz, IDX ++ List.replicate k 0, [], chs, ?_, hc2, ?_, ?_, by rw [hcfs]; exact hlen⟩
+                  refine ⟨CW.nwStart c isz, IDX ++ List.replicate k 0, [], chs, ?_, hc2, ?_, ?_, by rw [hcfs]; exact hlen, rfl⟩
                   · rw [hc1, t5, hi.dsize.1]
                   · rw [hstream, hfile]; simp
                   · rw [hdco]; simp [List.length_append]; omega
